@@ -472,8 +472,34 @@ func (r *NumberRenamer) assignName(scope *numberScope, ref ast.Ref) {
 	inner[ref.InnerIndex] = name
 }
 
-func (r *NumberRenamer) assignNamesInScope(scope *js_ast.Scope, sourceIndex uint32, parent *numberScope, sorted *[]int) *numberScope {
+// The parallel part below works on one file per goroutine. A symbol in a nested
+// scope can turn out to be linked to a symbol of another file though (e.g. the
+// unused import of an injected file inside a module that is wrapped in a
+// CommonJS closure is linked to the export of the injected file, which may
+// not be a top-level symbol of this chunk). Other goroutines may be using the
+// names of that file at the same time, so such symbols are remembered here and
+// renamed after the parallel part has finished instead.
+type deferredName struct {
+	scope *numberScope
+	ref   ast.Ref
+}
+
+type parallelState struct {
+	sorted   []int
+	deferred []deferredName
+}
+
+func (r *NumberRenamer) assignNameInParallel(scope *numberScope, ref ast.Ref, sourceIndex uint32, state *parallelState) {
+	if ast.FollowSymbols(r.symbols, ref).SourceIndex != sourceIndex {
+		state.deferred = append(state.deferred, deferredName{scope: scope, ref: ref})
+		return
+	}
+	r.assignName(scope, ref)
+}
+
+func (r *NumberRenamer) assignNamesInScope(scope *js_ast.Scope, sourceIndex uint32, parent *numberScope, state *parallelState) *numberScope {
 	s := &numberScope{parent: parent, nameCounts: make(map[string]uint32)}
+	sorted := &state.sorted
 
 	if len(scope.Members) > 0 {
 		// Sort member map keys for determinism, reusing a shared memory buffer
@@ -485,19 +511,19 @@ func (r *NumberRenamer) assignNamesInScope(scope *js_ast.Scope, sourceIndex uint
 
 		// Rename all user-defined symbols in this scope
 		for _, innerIndex := range *sorted {
-			r.assignName(s, ast.Ref{SourceIndex: sourceIndex, InnerIndex: uint32(innerIndex)})
+			r.assignNameInParallel(s, ast.Ref{SourceIndex: sourceIndex, InnerIndex: uint32(innerIndex)}, sourceIndex, state)
 		}
 	}
 
 	// Also rename all generated symbols in this scope
 	for _, ref := range scope.Generated {
-		r.assignName(s, ref)
+		r.assignNameInParallel(s, ref, sourceIndex, state)
 	}
 
 	return s
 }
 
-func (r *NumberRenamer) assignNamesRecursive(scope *js_ast.Scope, sourceIndex uint32, parent *numberScope, sorted *[]int) {
+func (r *NumberRenamer) assignNamesRecursive(scope *js_ast.Scope, sourceIndex uint32, parent *numberScope, state *parallelState) {
 	// For performance in extreme cases (e.g. 10,000 nested scopes), traversing
 	// through singly-nested scopes uses iteration instead of recursion
 	for {
@@ -508,7 +534,7 @@ func (r *NumberRenamer) assignNamesRecursive(scope *js_ast.Scope, sourceIndex ui
 			// Or at least there are already that many objects for the AST that we're
 			// traversing, so I don't know why 80% of the time in these extreme cases
 			// is taken by this function (if we don't avoid this allocation).
-			parent = r.assignNamesInScope(scope, sourceIndex, parent, sorted)
+			parent = r.assignNamesInScope(scope, sourceIndex, parent, state)
 		}
 		if children := scope.Children; len(children) == 1 {
 			scope = children[0]
@@ -519,7 +545,7 @@ func (r *NumberRenamer) assignNamesRecursive(scope *js_ast.Scope, sourceIndex ui
 
 	// Symbols in child scopes may also have to be renamed to avoid conflicts
 	for _, child := range scope.Children {
-		r.assignNamesRecursive(child, sourceIndex, parent, sorted)
+		r.assignNamesRecursive(child, sourceIndex, parent, state)
 	}
 }
 
@@ -528,17 +554,34 @@ func (r *NumberRenamer) AssignNamesByScope(nestedScopes map[uint32][]*js_ast.Sco
 	waitGroup.Add(len(nestedScopes))
 
 	// Rename nested scopes from separate files in parallel
+	states := make(map[uint32]*parallelState, len(nestedScopes))
 	for sourceIndex, scopes := range nestedScopes {
-		go func(sourceIndex uint32, scopes []*js_ast.Scope) {
-			var sorted []int
+		state := &parallelState{}
+		states[sourceIndex] = state
+		go func(sourceIndex uint32, scopes []*js_ast.Scope, state *parallelState) {
 			for _, scope := range scopes {
-				r.assignNamesRecursive(scope, sourceIndex, &r.root, &sorted)
+				r.assignNamesRecursive(scope, sourceIndex, &r.root, state)
 			}
 			waitGroup.Done()
-		}(sourceIndex, scopes)
+		}(sourceIndex, scopes, state)
 	}
 
 	waitGroup.Wait()
+
+	// Rename the symbols that belong to other files now that nothing else is
+	// running, in a deterministic order
+	sortedSourceIndices := make([]int, 0, len(states))
+	for sourceIndex, state := range states {
+		if len(state.deferred) > 0 {
+			sortedSourceIndices = append(sortedSourceIndices, int(sourceIndex))
+		}
+	}
+	sort.Ints(sortedSourceIndices)
+	for _, sourceIndex := range sortedSourceIndices {
+		for _, it := range states[uint32(sourceIndex)].deferred {
+			r.assignName(it.scope, it.ref)
+		}
+	}
 }
 
 type numberScope struct {
